@@ -121,9 +121,12 @@ CHECKS = {
               "theorem C15_gendump_well_scoped - the body generated for EVERY class (any fields, keys, paths, catch-all, skip conditions, "
               "tag text, Meta switches) reads only names that are bound when read; tie: parameter list, body text and ordered closure "
               "keys compared byte for byte with the captured cls_asdict of seeded classes on every run, names vs symtable, and the "
-              "function is run through every bookkeeping branch. For the load-side generators (default and v1) the statement for "
-              "every class is carried by the oracle (sampled), not by a theorem about the generators"),
-        technique='Lean 4 proof over quoting / naming models and over a text-level model of the dump-function generator (scoping theorem for every class, byte-for-byte correspondence with the generated source) + tables regenerated from generated code + renaming-equivariance oracle', ref='4 C15'),
+              "function is run through every bookkeeping branch (also under Python's scoping rule taken literally: C15_gendump_well_scoped_py). "
+              "The same for the default-engine load generator load_func_for_dataclass (DW/Model/GenLoad.lean: recursive statement forms with "
+              "declared names, control-flow-aware scoping checker): theorem C15_genload_well_scoped for every class, tie: body, ordered "
+              "closure keys and globals byte for byte, declared names vs ast per source line, run on documents driving every branch. For "
+              "the v1 load generator the statement for every class is carried by the oracle (sampled), not by a theorem"),
+        technique='Lean 4 proof over quoting / naming models and over text-level models of the dump-function and default load-function generators (scoping theorems for every class, byte-for-byte correspondence with the generated source) + tables regenerated from generated code + renaming-equivariance oracle', ref='4 C15'),
     'C16': dict(
         text=("Lean theorems over a model of the property_wizard metaclass, dataclass field collection and the setter wrapper: field "
               "order, constructor parameters, the declared default is the one routed through the setter exactly once when the argument "
